@@ -803,7 +803,7 @@ def run(ctx, replay=None):
     ctx.rule += ("; PLUS composite kernels (WarpedKernel with 1..3 Warping blocks incl. non-contiguous ranges and "
                  "Kumaraswamy parameters away from 1, ProductKernelFunction, RangeKernelFunction, "
                  "ExponentialDecayResourcesKernelFunction as plain kernels): kernel matrices, predict, likelihood, "
-                 "incremental-vs-scratch against an independent numpy implementation; PLUS a few LARGE data sets (n 64/128/260, covariance scale and noise at the ends of their boxes): likelihood and two predictions against the slogdet-based dense reference; PLUS, for every state, all input arrays are overwritten in place afterwards and predict / likelihood / update must be bit-identical; PLUS 1-D target vectors handed to the state classes directly; PLUS fit streams on GaussianProcessRegression (first fit, refit on more data with every optimiser restart failing through a harness-side mock, refit): predict = dense posterior of the data of that fit under get_params(); PLUS operation sequences over {fit, failing fit, set_params, reset_params, recompute_states(same dict object), recompute_states(fresh equal dict), grow the dict in place + recompute_states} with the same check after every step that (re)computes the state")
+                 "incremental-vs-scratch against an independent numpy implementation; PLUS a few LARGE data sets (n 64/128/260, covariance scale and noise at the ends of their boxes): likelihood and two predictions against the slogdet-based dense reference; PLUS, for every state, all input arrays are overwritten in place afterwards and predict / likelihood / update must be bit-identical; PLUS 1-D target vectors handed to the state classes directly; PLUS fit streams on GaussianProcessRegression (first fit, refit on more data with every optimiser restart failing through a harness-side mock, refit): predict = dense posterior of the data of that fit under get_params(); PLUS operation sequences over {fit, failing fit, set_params, reset_params, recompute_states(same dict object), recompute_states(fresh equal dict), grow the dict in place + recompute_states} with the same check after every step that (re)computes the state; PLUS the MCMC surrogate GPRegressionMCMC (short chains): every per-sample posterior state = dense posterior under its own hyper-parameter sample, after fit and after recompute_states")
     if replay is not None:
         if replay.get("kind") == "gpc":
             import warnings
@@ -814,6 +814,12 @@ def run(ctx, replay=None):
             for i in ctx.coq_bad_cases("ckernel", IMPORTS, PRELUDE, "chk_ckernel", ck_cases, shard=40):
                 ctx.violation("correspondence", "model composite kernel matrix differs from the implementation", case=ck_meta[i],
                               failing_input=False, broken="correspondence chk_ckernel (model/GPLin.v warped/product/range kernel)")
+            return
+        if replay.get("kind") == "gpm":
+            import warnings
+            with warnings.catch_warnings():
+                warnings.simplefilter("ignore")
+                gplin_composite.run_mcmc(ctx, replay["spec"])
             return
         if replay.get("kind") == "gps":
             import warnings
@@ -836,13 +842,14 @@ def run(ctx, replay=None):
         if replay.get("kind") != "gp":
             return
         specs = [replay["spec"]]
-        cspecs, lspecs, fspecs, qspecs = [], [], [], []
+        cspecs, lspecs, fspecs, qspecs, mspecs = [], [], [], [], []
     else:
         specs = [gen_spec(rng) for _ in range(ctx.n(400, 3000))]
         cspecs = [gplin_composite.gen_spec(rng) for _ in range(ctx.n(250, 2000))]
         lspecs = [gplin_composite.gen_large(rng, k_) for k_ in range(ctx.n(6, 36))]
         fspecs = [gplin_composite.gen_fit(rng, k_) for k_ in range(ctx.n(6, 40))]
         qspecs = [gplin_composite.gen_seq(rng, k_) for k_ in range(ctx.n(12, 80))]
+        mspecs = [gplin_composite.gen_mcmc(rng, k_) for k_ in range(ctx.n(2, 10))]
     cases_k, cases_g, meta, kmeta, jit_cases, jit_meta = [], [], [], [], [], []
     ck_cases, ck_meta = [], []
     sq_cases, sq_meta = [], []
@@ -873,6 +880,8 @@ def run(ctx, replay=None):
             gplin_composite.run_fit(ctx, fspec)
         for qspec in qspecs:
             gplin_composite.run_seq(ctx, qspec, sq_cases, sq_meta)
+        for mspec in mspecs:
+            gplin_composite.run_mcmc(ctx, mspec)
     for i in ctx.coq_bad_cases("kernel", IMPORTS, PRELUDE, "chk_kernel", cases_k, shard=40):
         ctx.violation("correspondence", "model Matern-5/2 kernel matrix differs from Matern52.forward/diagonal "
                       "beyond round-off", case=kmeta[i], failing_input=False,
